@@ -337,6 +337,9 @@ func (fc *FnCtx) applyContract(con *FuncContract, name string, c *ssa.CallCommon
 	fc.assumeHere(fc.typeFacts(res, resType))
 	// (no freshness assumption: a contracted callee may return values derived from its arguments)
 	post := &Env{fc: fc, heap: fc.heap, old: pre, ghost: fc.ghost, oldGhost: fc.ghost, vars: map[string]Val{}, oldvars: env.oldvars, inPost: true}
+	if cv, ok := fc.curInstr.(ssa.Value); ok {
+		post.callSite = cv
+	}
 	for k, v := range env.vars {
 		post.vars[k] = v
 	}
